@@ -22,6 +22,8 @@ mod resolve;
 mod nopanic;
 #[cfg(feature = "tz-std")]
 mod hist;
+#[cfg(feature = "tz-std")]
+mod dump;
 
 #[cfg(feature = "tz-alloc")]
 #[global_allocator]
@@ -97,6 +99,8 @@ fn main() {
             "hist" => hist::run(&args),
             #[cfg(feature = "tz-std")]
             "hist-alone" => hist::run_alone(&args),
+            #[cfg(feature = "tz-std")]
+            "dump" => dump::run(&args),
             e => {
                 eprintln!("unknown engine {e}");
                 2
